@@ -163,6 +163,9 @@ def check(run):
         r0 = q.render(ip, c['args'][0]) if c.get('args') else ''
         run.check('m_forwarding_latency' in r0 and 'now' in r0 and '+' in r0, 'R4', 'latency-stamped', ip.norm, ip.loc(c), 'the enqueue does not stamp now + m_forwarding_latency: ' + r0, 'stamped now + m_forwarding_latency')
         defs = [q.render(ip, d) for nn in ip.all_nodes() if nn['k'] == 'decl' for v in nn['vars'] if v.get('name') == 'now' for d in [v.get('init')]]
+        if not defs:
+            run.broke('queue::incoming_packet: local `now` not found (renamed?)')
+            continue
         run.check(defs == ['sim::chrono::high_resolution_clock::now()'], 'R4', 'latency-clock', ip.norm, ip.loc(c), '`now` is not the current virtual time', '`now` is high_resolution_clock::now()')
     waits = [nn for nn in bs.all_nodes() if nn['k'] == 'if' and 'm_queue.front().ts' in q.render(bs, nn['cond'])]
     okw = False
@@ -190,6 +193,8 @@ def check(run):
         rr = q.render(bs, a.site['args'][1] if a.site['k'] == 'call' else a.site['rhs'])
         run.check('packet_size' in rr or ('buffer.size()' in rr and 'overhead' in rr), 'R4', 'serialisation-includes-overhead', bs.norm, bs.loc(a.node), 'serialisation time does not depend on payload+overhead: ' + rr[:100], 'depends on payload + overhead')
     psz = [v for nn in bs.all_nodes() if nn['k'] == 'decl' for v in nn['vars'] if v.get('name') == 'packet_size']
+    if not psz:
+        run.broke('begin_send_next_packet: local packet_size not found (renamed?)')
     for v in psz:
         lf = q.linform(bs, v['init'])
         run.check(lf == ({'p.buffer.size()': 1, 'p.overhead': 1}, 0), 'R4', 'size-measure', bs.norm, bs.loc(), 'packet_size is %s, not payload + overhead' % q.render(bs, v['init']), 'payload + overhead')
